@@ -304,8 +304,22 @@ Definition kof (keys : list nat) (e : nat) : nat := nth e keys 0.
                                 is switched to another target
        DCreate p                an entity is built from the configuration naming path p (entities are
                                 numbered in creation order)
-       DCall j                  the main thread runs job j here (see wrun; irrelevant for the keys) ---- *)
-Inductive dstep := DInstall (p k stamp how : nat) | DCreate (p : nat) | DCall (j : nat).
+       DCall j                  the main thread runs job j here (see wrun; irrelevant for the keys)
+     The configuration is an OBJECT (saml2.config.Config) with a life of its own: entity.py Entity.__init__
+     keeps it (self.config) and hands it to security_context(conf), which reads conf.key_file / conf.cert_file
+     AT THAT MOMENT and nothing else of the object's history - nothing is kept on the Config object, on its
+     class, or keyed by its identity.  Configuration objects are numbered in creation order:
+       DConf p how parent       how = 0: a new Config is loaded from a fresh dict naming path p;
+                                how = 1: copy.copy(config `parent`), then key_file/cert_file (entityid) are
+                                         set to path p on the copy (idiom of tests/test_39_metadata.py);
+                                how = 2: a new Config is loaded from the very dict `parent` was loaded
+                                         from, after its key_file/cert_file entries were set to path p;
+                                how = 3: config `parent` ITSELF is re-pointed at path p (no new object);
+       DBuild c                 an entity is built from configuration object c as it is now;
+       DCtx c                   security_context(config c) is called and the result dropped (what
+                                response.py authn_response()/response_factory() do per message) ---- *)
+Inductive dstep := DInstall (p k stamp how : nat) | DCreate (p : nat) | DCall (j : nat)
+  | DConf (p how parent : nat) | DBuild (c : nat) | DCtx (c : nat).
 
 Definition fsys := list (nat * (nat * nat)).     (* path -> (key pair installed there, mtime); newest first *)
 
@@ -315,18 +329,33 @@ Fixpoint fread (fs : fsys) (p : nat) : option nat :=
   | (q, (k, _)) :: r => if Nat.eqb q p then Some k else fread r p
   end.
 
-(* per entity, in creation order: (key pair of sec_backend.key, key pair of the certificate my_cert) *)
-Fixpoint loaded (fs : fsys) (d : list dstep) : list (nat * nat) :=
-  match d with
-  | [] => []
-  | DInstall p k s _ :: r => loaded ((p, (k, s)) :: fs) r
-  | DCreate p :: r =>
-      match fread fs p (* key_file *), fread fs p (* cert_file *) with
-      | Some k, Some c => (k, c) :: loaded fs r
-      | _, _ => loaded fs r                  (* no such file: the constructor raises, no entity *)
-      end
-  | DCall _ :: r => loaded fs r
+(* what building an entity from the configuration naming path p yields *)
+Definition build_at (fs : fsys) (p : nat) : option (nat * nat) :=
+  match fread fs p (* key_file *), fread fs p (* cert_file *) with
+  | Some k, Some c => Some (k, c)
+  | _, _ => None                             (* no such file: the constructor raises, no entity *)
   end.
 
-Definition deploy_keys (d : list dstep) : list nat := map fst (loaded [] d).
-Definition deploy_certs (d : list dstep) : list nat := map snd (loaded [] d).
+Definition ocons {A} (o : option A) (l : list A) : list A := match o with Some x => x :: l | None => l end.
+
+(* per entity, in creation order: (key pair of sec_backend.key, key pair of the certificate my_cert);
+   cf = the path each configuration object names now *)
+Fixpoint loaded (fs : fsys) (cf : list nat) (d : list dstep) : list (nat * nat) :=
+  match d with
+  | [] => []
+  | DInstall p k s _ :: r => loaded ((p, (k, s)) :: fs) cf r
+  | DCreate p :: r => ocons (build_at fs p) (loaded fs cf r)
+  | DCall _ :: r => loaded fs cf r
+  | DConf p how parent :: r =>
+      if Nat.eqb how 3 then loaded fs (upd parent p cf) r      (* re-pointed; no such object: nothing happens *)
+      else loaded fs (cf ++ [p]) r                             (* a new object, whatever it was derived from *)
+  | DBuild c :: r =>
+      match nth_error cf c with
+      | Some p => ocons (build_at fs p) (loaded fs cf r)
+      | None => loaded fs cf r
+      end
+  | DCtx _ :: r => loaded fs cf r
+  end.
+
+Definition deploy_keys (d : list dstep) : list nat := map fst (loaded [] [] d).
+Definition deploy_certs (d : list dstep) : list nat := map snd (loaded [] [] d).
